@@ -141,7 +141,7 @@ fn gen(rng: &mut Rng, _idx: u64, tier: Tier) -> Case {
                 (mk(rng, ac, mb_bds50(&f5)), "bds50-implausible".into())
             }
         };
-        let dt = if rng.chance(0.07) { (d + rng.range(0, 2)) * 1_000_000 } else { gen::gap_us(rng, d).min(6_000_000) };
+        let dt = if rng.chance(0.07) { (d + rng.range(0, 2)) * 1_000_000 } else if rng.chance(0.05) { rng.range(d * 300_000, d * 990_000) } else { gen::gap_us(rng, d).min(6_000_000) };
         // the ground station may ask again and get the very same reply (also after other messages)
         let f = if rng.chance(0.06) { last_reply.get(&a).cloned().unwrap_or(f) } else { f };
         if matches!(modes::df_of(&f), 20 | 21) { last_reply.insert(a, f.clone()); }
